@@ -325,7 +325,7 @@ func errorDroppedOnPath(c ssa.CallInstruction, ev ssa.Value) *ssa.BasicBlock {
 }
 
 func runC09(e *Engine, r *Report, tier string) {
-	r.Explanation = "C09, structural clauses. Decided for every contract.PrecompileMethod implementer (enumerated by interface): R1 in a state-changing method every call with a write effect lies inside the closure handed to ExtStateDB.ExecuteNativeAction and every sdk.Context it uses is that closure's own parameter (not stateDB.Context(), not a captured context); read-only methods reach no write; R2 inside the closure the error of every fallible effectful call is returned, Run returns the error of ExecuteNativeAction, and both Contract.Run dispatchers turn a method error into a non-nil error (PackRetErr* return their argument); R3 no recover() in the precompile call closure; R4 IsReadonly() is constant and false for every method that reaches a write; R5 every implementer is registered in a Contract.methods list. Not decided: the journaling inside ethermint's statedb (trusted), EVM call-tree and gas behaviour (C08.R2 covers the nested-EVM coherence clause)."
+	r.Explanation = "C09, structural clauses. Decided for every contract.PrecompileMethod implementer (enumerated by interface): R1 in a state-changing method every call with a write effect lies inside the closure handed to ExtStateDB.ExecuteNativeAction and every sdk.Context it uses is that closure's own parameter (not stateDB.Context(), not a captured context); read-only methods reach no write; R2 inside the closure the error of every fallible effectful call is returned, Run returns the error of ExecuteNativeAction, and both Contract.Run dispatchers turn a method error into a non-nil error (PackRetErr* return their argument); R3 no recover() in the precompile call closure; R4 IsReadonly() is constant and false for every method that reaches a write; R5 every implementer is registered in a Contract.methods list; R6 no fx-core function writes into a byte slice it obtained from KVStore.Get or an iterator (index store, copy, PutUintNN, append onto a re-slice): the cache-store layers and the journal's snapshots share those slices, so an in-place write changes the parent store and every snapshot at once and survives a reverted frame. Not decided: the journaling inside ethermint's statedb (trusted), EVM call-tree and gas behaviour (C08.R2 covers the nested-EVM coherence clause)."
 	r.Trusted = []string{"ethermint ExtStateDB.ExecuteNativeAction journals the native cache store and reverts it with the frame", "go-ethereum reverts the frame when a precompile returns an error"}
 	ms := e.precompileMethods()
 	r.Rule("R1", "write effects only inside the ExecuteNativeAction closure, using only the closure's context", len(ms), "implementers of contract.PrecompileMethod")
@@ -333,6 +333,8 @@ func runC09(e *Engine, r *Report, tier string) {
 	r.Rule("R3", "no recover() reachable from precompile Run", 1, "")
 	r.Rule("R4", "IsReadonly() constant; false iff the method reaches a write", len(ms), "implementers")
 	r.Rule("R5", "every implementer is registered with a precompiled contract", len(ms), "implementers")
+	r.Rule("R6", "store contents change only through Set/Delete: a byte slice read from a KVStore or iterator is never written in place", 40, "KVStore.Get / Iterator.Key / Iterator.Value sites in fx-core keepers")
+	e.storeAliasRule(r, "R6")
 
 	var runFns []*ssa.Function
 	for _, m := range ms {
@@ -1314,4 +1316,119 @@ func (e *Engine) abiNameOf(T types.Type) string {
 		})
 	}
 	return best
+}
+
+// storeAliasRule: every value read from a KVStore (Get) or a store iterator (Key/Value) is followed through re-slicing,
+// conversions and phis; any in-place write through it is reported.
+func (e *Engine) storeAliasRule(r *Report, rule string) {
+	isStoreRead := func(c ssa.CallInstruction) bool {
+		com := c.Common()
+		n := ""
+		if com.IsInvoke() {
+			n = com.Method.Name()
+		} else if f := com.StaticCallee(); f != nil {
+			n = f.Name()
+		}
+		if n != "Get" && n != "Key" && n != "Value" {
+			return false
+		}
+		v, ok := c.(ssa.Value)
+		if !ok {
+			return false
+		}
+		sl, ok := v.Type().Underlying().(*types.Slice)
+		if !ok {
+			return false
+		}
+		if b, ok := sl.Elem().Underlying().(*types.Basic); !ok || b.Kind() != types.Byte {
+			return false
+		}
+		var recv types.Type
+		if com.IsInvoke() {
+			recv = com.Value.Type()
+		} else if f := com.StaticCallee(); f != nil && f.Signature.Recv() != nil {
+			recv = f.Signature.Recv().Type()
+		}
+		if recv == nil {
+			return false
+		}
+		rs := recv.String()
+		return strings.Contains(rs, "KVStore") || strings.Contains(rs, "Iterator") || strings.Contains(rs, "prefix.Store") || strings.Contains(rs, "store/")
+	}
+	n := 0
+	ord := map[*ssa.Function]int{}
+	for _, fn := range e.Funcs {
+		if isAuxPkg(fnPkgPath(fn)) {
+			continue
+		}
+		allCalls(fn, func(c ssa.CallInstruction) {
+			if !isStoreRead(c) {
+				return
+			}
+			n++
+			ord[fn]++
+			ck := fmt.Sprintf("%s %s#%d", e.FnKey(fn), callName(c), ord[fn])
+			seen := map[ssa.Value]bool{}
+			var bad ssa.Instruction
+			var why string
+			var follow func(v ssa.Value)
+			follow = func(v ssa.Value) {
+				if seen[v] || bad != nil {
+					return
+				}
+				seen[v] = true
+				for _, ref := range *v.Referrers() {
+					switch x := ref.(type) {
+					case *ssa.Slice:
+						if x.X == v {
+							follow(x)
+						}
+					case *ssa.Phi:
+						follow(x)
+					case *ssa.ChangeType:
+						follow(x)
+					case *ssa.IndexAddr:
+						if x.X != v {
+							continue
+						}
+						for _, r2 := range *x.Referrers() {
+							if st, ok := r2.(*ssa.Store); ok && st.Addr == ssa.Value(x) {
+								bad, why = st, "an element of the slice is assigned"
+							}
+						}
+					case ssa.CallInstruction:
+						com := x.Common()
+						if b, ok := com.Value.(*ssa.Builtin); ok {
+							if b.Name() == "copy" && len(com.Args) > 0 && com.Args[0] == v {
+								bad, why = x, "it is the destination of copy()"
+							}
+							if b.Name() == "append" && len(com.Args) > 0 && com.Args[0] == v {
+								if _, isSl := v.(*ssa.Slice); isSl {
+									bad, why = x, "append() onto a re-slice of it writes into its backing array"
+								}
+							}
+							continue
+						}
+						cn := callName(x)
+						if strings.HasPrefix(cn, "PutUint") || strings.HasPrefix(cn, "PutVarint") || strings.HasPrefix(cn, "PutUvarint") || cn == "FillBytes" || (cn == "Read" && !com.IsInvoke()) {
+							for _, a := range com.Args {
+								if a == v {
+									bad, why = x, cn+" writes into it"
+								}
+							}
+						}
+					}
+				}
+			}
+			follow(c.(ssa.Value))
+			if bad != nil {
+				r.Fail(rule, ck, e.InstrPos(bad), "the byte slice returned by the store is written in place ("+why+"): cache layers and journal snapshots share that slice, the write reaches the parent store without a Set and is not undone when the frame or transaction is reverted")
+			} else {
+				r.Ok(rule, ck, e.InstrPos(c), "read-only use of the stored bytes")
+			}
+		})
+	}
+	if n == 0 {
+		r.Fail(rule, "store reads", "", "UNRESOLVED-ANCHOR: no KVStore read found")
+	}
 }
